@@ -92,6 +92,12 @@ CLAIMED["C20"] = dict(
     text="C20_learns_prefix_word / word_suffix / prefix_word_suffix (followed by nothing or the unconverted tail), C20_no_affix_no_learning; the learned noun is applied (C07), saved and restored (C08). "
          "The extractor as it was (blind to BOS-headed chains) is kept as C20_old_extractor_blind; the defect F3 was repaired.",
     note="full for the extractor; the end-to-end part shares C07/C08's trust. " + SRV_NOTE, ref="6/C20")
+CLAIMED["C11"] = dict(
+    technique="Coq proof (stable sort keeps per-reading source order; no loss / no invention over the conjugation and text-format models) + the real chokan-dic binary reloaded through postcard",
+    text="C11_no_loss, C11_no_invention, C11_order about the builder model (read_all, conjugate, stable sort by reading, trie = accepted readings, map = words per reading); "
+         "the real binary is run on generated sources up to 300 lines (quick) / 50 000 lines (thorough), its dictionary.dat reloaded and every reading and many non-readings looked up the way the engine does.",
+    note="full for the builder logic; postcard's image of the dictionary is exercised, not proved; the trie is C04's. One known finding (F17: a format-valid line with an unsupported conjugation row aborts the build).",
+    ref="6/C11")
 PENDING = {}
 
 def main():
